@@ -45,7 +45,7 @@ impl Distribute for Scripted {
     }
 }
 
-fn parse_records(s: &str) -> Vec<TestHybridRecord> {
+pub fn parse_records(s: &str) -> Vec<TestHybridRecord> {
     if s == "-" {
         return vec![];
     }
@@ -71,7 +71,7 @@ fn parse_records(s: &str) -> Vec<TestHybridRecord> {
         .collect()
 }
 
-fn small_padding() -> PaddingParameters {
+pub fn small_padding() -> PaddingParameters {
     // cheap but non-trivial padding: a handful of dummy rows per pass
     PaddingParameters {
         aggregation_padding: AggregationPadding::Parameters {
@@ -194,7 +194,7 @@ pub fn exec(req: &str) -> String {
     }
 }
 
-fn rec_str(recs: &[(char, u64, u32)]) -> String {
+pub fn rec_str(recs: &[(char, u64, u32)]) -> String {
     if recs.is_empty() {
         return "-".into();
     }
@@ -203,7 +203,7 @@ fn rec_str(recs: &[(char, u64, u32)]) -> String {
 
 /// A structured multiset: attributed pairs, duplicates, triples, lone impressions/conversions,
 /// colliding breakdown sums, double conversions (bucket 0), double impressions.
-fn gen_records(rng: &mut Rng, n_keys: usize, max_bk: u32, max_v: u32) -> Vec<(char, u64, u32)> {
+pub fn gen_records(rng: &mut Rng, n_keys: usize, max_bk: u32, max_v: u32) -> Vec<(char, u64, u32)> {
     let mut recs = vec![];
     for _ in 0..n_keys {
         let mk = rng.next_u64() >> rng.below(40);
